@@ -23,8 +23,8 @@ ASSUMPTIONS = ["words contain no whitespace, no comma and no '#' and no line-bou
 OUTSIDE = ["reformat_when_finished / sort", "LIST_UPLOADERS_INTERPRETATION", "more than two edit operations"]
 
 # separator layouts: %0 %1 %2 are the words
-WS_LAYOUTS = ["%0", "%0 %1", "%0  %1 %2", " %0 %1", "%0\n %1", "%0\n\t%1\n %2", "%0\n# c\n %1", "%0 %1\n# c1\n# c2\n  %2", "%0 %1 ", "\n %0\n %1"]
-CM_LAYOUTS = ["%0", "%0, %1", "%0,%1,%2", "%0 , %1", "%0,\n %1", "%0\n , %1", "%0,\n# c\n %1,\n %2", "%0, %1,", ", %0, %1", "%0,\n %1\n ,", "\n %0,\n %1"]
+WS_LAYOUTS = ["%0", "%0 %1", "%0  %1 %2", " %0 %1", "%0\n %1", "%0\n\t%1\n %2", "%0\n# c\n %1", "%0 %1\n# c1\n# c2\n  %2", "%0 %1 ", "\n %0\n %1", "%0\t%1 \t%2"]
+CM_LAYOUTS = ["%0", "%0, %1", "%0,%1,%2", "%0 , %1", "%0,\n %1", "%0\n , %1", "%0,\n# c\n %1,\n %2", "%0, %1,", ", %0, %1", "%0,\n %1\n ,", "\n %0,\n %1", "%0\t, %1", "%0\t\t,\n %1\t,\n\t%2"]
 BOUNDARY = (10, 11, 12, 13, 28, 29, 30, 133, 0x2028, 0x2029)
 
 
